@@ -42,6 +42,9 @@ GConnectArgs ==
   { <<cmd, kind, want, user>> \in AllCmds \X Kinds \X Wants \X Users :
       /\ (kind # "honest" => user = "alice")
       /\ (kind = "noCipher" => want = "weak")     \* demanding encryption without a cipher just fails
+      \* a client that merely PREFERS protection matters where it ends up without a key
+      \* (and is kept alive: key-less sessions are not resumable, so not in mode "resume")
+      /\ (want = "prefer" => (kind = "skipsKeyAgreement" /\ GenMode # "resume"))
       /\ (cmd \notin AuthCmds => (kind = "honest" /\ want = "weak" /\ user = "alice")) }
 
 GConnect ==
